@@ -253,10 +253,11 @@ static void *huge_thread(void *arg)
         if (j->kind == 1) { tinyjambu_hmac_update(&st, j->msg, 0xFFFFFFFFu); tinyjambu_hmac_update(&st, j->msg + 0xFFFFFFFFu, j->total - 0xFFFFFFFFu); }
         else while (pos < j->total) { n = P1[k++ % 4]; if (n > j->total - pos) n = j->total - pos; tinyjambu_hmac_update(&st, j->msg + pos, n); pos += n; }
         tinyjambu_hmac_finalize(&st, j->key, j->keylen, j->out);
-    } else {                             /* hash: 7-byte update, then ONE update with everything else (partial block pending + >= 2^32 bytes) */
+    } else {                             /* hash: short update, then ONE update with everything else (partial block pending + >= 2^32 bytes) */
         tinyjambu_hash_state_t st;
+        size_t first = j->variant == 3 ? 5 : 7;          /* variant 3: the second length is 2^32 + 3, less than a block modulo 2^32 */
         tinyjambu_hash_init(&st);
-        if (j->kind == 0) { tinyjambu_hash_update(&st, j->msg, 7); tinyjambu_hash_update(&st, j->msg + 7, j->total - 7); }
+        if (j->kind == 0) { tinyjambu_hash_update(&st, j->msg, first); tinyjambu_hash_update(&st, j->msg + first, j->total - first); }
         else if (j->kind == 1) { tinyjambu_hash_update(&st, j->msg, 0xFFFFFFFFu); tinyjambu_hash_update(&st, j->msg + 0xFFFFFFFFu, j->total - 0xFFFFFFFFu); }
         else while (pos < j->total) { n = P1[k++ % 4]; if (n > j->total - pos) n = j->total - pos; tinyjambu_hash_update(&st, j->msg + pos, n); pos += n; }
         tinyjambu_hash_finalize(&st, j->out);
@@ -266,17 +267,17 @@ static void *huge_thread(void *arg)
 
 static void huge_case(const args_t *a, long idx, int variant)
 {
-    size_t total = ((size_t)1 << 32) + 37 + (size_t)(variant == 2 ? 16 : 0), i;
+    size_t total = variant == 3 ? ((size_t)1 << 32) + 8 : ((size_t)1 << 32) + 37 + (size_t)(variant == 2 ? 16 : 0), i;
     uint8_t *msg = (uint8_t *)mmap(NULL, total, PROT_READ | PROT_WRITE, MAP_PRIVATE | MAP_ANONYMOUS | MAP_NORESERVE, -1, 0), key[40], small[32];
     rng_t r = rng_for(a->seed, 0x4B16, (uint64_t)idx);
     huge_job_t j[3];
     pthread_t th[3];
-    static const char *vn[] = {"hash", "hmac", "hash-pending-partial"};
+    static const char *vn[] = {"hash", "hmac", "hash-pending-partial", "hash-pending-partial-short-residue"};
     if (msg == MAP_FAILED) { perror("mmap"); exit(2); }
     set_case("{\"h\":\"hash\",\"mode\":\"huge\",\"i\":%ld,\"variant\":\"%s\",\"total\":%zu}", idx, vn[variant], total);
     /* sparse message: random bytes at the start, around every 2^30 boundary and at the end; zero pages elsewhere */
     fill_random(&r, msg, 4096);
-    for (i = 1; i <= 4; ++i) fill_random(&r, msg + (i << 30) - 64, i == 4 ? 64 + 37 : 128);
+    for (i = 1; i <= 4; ++i) fill_random(&r, msg + (i << 30) - 64, i == 4 ? 64 + (total - ((size_t)1 << 32)) : 128);
     fill_random(&r, key, sizeof key);
     for (i = 0; i < 3; ++i) { j[i].kind = (int)i; j[i].variant = variant; j[i].msg = msg; j[i].total = total; j[i].key = key; j[i].keylen = sizeof key; memset(j[i].out, 0, 32); }
     for (i = 0; i < 3; ++i) if (pthread_create(&th[i], NULL, huge_thread, &j[i])) { perror("pthread_create"); exit(2); }
@@ -466,7 +467,7 @@ int main(int argc, char **argv)
             if (mine(&a, idx)) hmac_case(&a, idx, kl, mlen);
         }
     } else if (!strcmp(a.mode, "huge")) {
-        for (i = 0; i < 3; ++i, ++idx) if (mine(&a, idx) && (a.p1 == i || a.p1 == 9)) huge_case(&a, idx, (int)i);
+        for (i = 0; i < 4; ++i, ++idx) if (mine(&a, idx) && (a.p1 == i || a.p1 == 9)) huge_case(&a, idx, (int)i);
         emit_stat("bytes_hashed_in_huge_cases", n_huge_bytes);
     } else { fprintf(stderr, "bad mode\n"); return 2; }
     emit_stat("evaluations", n_eval); emit_stat("model_digests", n_model); emit_stat("oneshot_hash_calls", n_oneshot);
